@@ -13,6 +13,7 @@ import (
 	"path/filepath"
 	"strconv"
 	"strings"
+	"sync"
 	"unicode/utf8"
 
 	"github.com/hyperledger/firefly-signer/pkg/abi"
@@ -54,8 +55,20 @@ func (p *param) coq() string {
 	}
 	return "(DP " + cv.CoqBytes([]byte(p.T)) + " [" + strings.Join(parts, "; ") + "])"
 }
+
+// the name, the indexed flag and the internal type do not take part in the type grammar: they vary
+// (deterministically, by the type text) so that a dependence on them shows up as a disagreement
+var paramNames = []string{"p", "", "a b", "tuple", "uint8", "p"}
+
 func (p *param) abi() *abi.Parameter {
-	o := &abi.Parameter{Name: "p", Type: p.T}
+	h := uint32(len(p.T)*7 + len(p.C))
+	for i := 0; i < len(p.T); i++ {
+		h = h*31 + uint32(p.T[i])
+	}
+	o := &abi.Parameter{Name: paramNames[h%uint32(len(paramNames))], Type: p.T, Indexed: h%5 == 0}
+	if h%7 == 0 {
+		o.InternalType = "struct X." + p.T
+	}
 	for _, c := range p.C {
 		o.Components = append(o.Components, c.abi())
 	}
@@ -177,6 +190,15 @@ type result struct {
 	tree *otree
 	sig  string
 	err  string
+	tc   abi.TypeComponent
+}
+
+// what the correspondence compares, as one string
+func (r result) summary() string {
+	if r.cls != 0 {
+		return fmt.Sprintf("class=%d", r.cls)
+	}
+	return "ok " + r.tree.describe() + " sig=" + r.sig
 }
 
 func run(p *param) (r result) {
@@ -189,7 +211,7 @@ func run(p *param) (r result) {
 	if err != nil {
 		return result{cls: 1, err: err.Error()}
 	}
-	return result{cls: 0, tree: observe(tc), sig: tc.String()}
+	return result{cls: 0, tree: observe(tc), sig: tc.String(), tc: tc}
 }
 
 func revalidate(p *param) (cls int) {
@@ -202,8 +224,18 @@ func revalidate(p *param) (cls int) {
 	orig := a.Type
 	a.Type = "uint256"
 	_ = a.Validate()
+	if _, err := a.TypeComponentTree(); err != nil {
+		return 3
+	}
 	a.Type = orig
 	if err := a.Validate(); err != nil {
+		// the earlier (valid) tree must not be served for a text that was just refused
+		if tc, err2 := a.TypeComponentTree(); err2 == nil && tc != nil {
+			return 4
+		}
+		if _, err2 := a.SignatureString(); err2 == nil {
+			return 4
+		}
 		return 1
 	}
 	// and the tree now served is the one of the new text
@@ -212,7 +244,20 @@ func revalidate(p *param) (cls int) {
 		return 1
 	}
 	fresh, err2 := p.abi().TypeComponentTree()
-	if err2 != nil || tc.String() != fresh.String() {
+	if err2 != nil || tc.String() != fresh.String() || observe(tc).describe() != observe(fresh).describe() {
+		return 3
+	}
+	// the other order: a refused text first, then this one
+	b := p.abi()
+	b.Type = "uint7["
+	if b.Validate() == nil {
+		return 3
+	}
+	b.Type = orig
+	if _, err := b.TypeComponentTree(); err != nil {
+		return 3
+	}
+	if s, err := b.SignatureString(); err != nil || s != fresh.String() {
 		return 3
 	}
 	return 0
@@ -246,11 +291,11 @@ func runEntryPoints(p *param) (vcls int, sig string, scls int) {
 }
 
 type desc struct {
-	Kind  string `json:"kind"`
-	Param *pj    `json:"param,omitempty"`
+	Kind  string    `json:"kind"`
+	Param *pj       `json:"param,omitempty"`
 	ABI   [][2][]pj `json:"abi,omitempty"`
-	Impl  string `json:"impl"`
-	Key   string `json:"key,omitempty"`
+	Impl  string    `json:"impl"`
+	Key   string    `json:"key,omitempty"`
 }
 
 type gen struct {
@@ -258,6 +303,87 @@ type gen struct {
 	st   *cv.Stats
 	seen map[string]bool
 	r    *cv.Rand
+	// returned trees kept and looked at again after other parameters have been parsed
+	retained []retainedTree
+	// distinct parameters with their sequential result, for the concurrent pass
+	pool []pooled
+}
+
+type retainedTree struct {
+	p       *param
+	tc      abi.TypeComponent
+	summary string
+}
+
+type pooled struct {
+	p       *param
+	summary string
+}
+
+const retainN = 256
+
+// retain keeps the component tree handed out for p; when it leaves the window (or at the end) the tree
+// is observed again and must still be what it was: a parse of another parameter must not reach into it.
+func (g *gen) retain(p *param, r result) {
+	if r.cls != 0 {
+		return
+	}
+	g.retained = append(g.retained, retainedTree{p: p, tc: r.tc, summary: r.summary()})
+	if len(g.retained) > retainN {
+		g.recheck(g.retained[0])
+		g.retained = g.retained[1:]
+	}
+}
+
+func (g *gen) recheck(rt retainedTree) {
+	now := "PANIC"
+	func() {
+		defer func() { _ = recover() }()
+		now = result{cls: 0, tree: observe(rt.tc), sig: rt.tc.String()}.summary()
+	}()
+	g.st.Hit("retained:rechecked")
+	if now != rt.summary {
+		g.st.ImplFailures = append(g.st.ImplFailures, map[string]interface{}{
+			"what": "a type component tree returned earlier changed after other parameters were parsed", "param": rt.p.json(),
+			"first": rt.summary, "later": now})
+	}
+}
+
+// concurrentPass validates the pooled parameters from several goroutines at once (each in its own order)
+// and compares with the sequential results.
+func (g *gen) concurrentPass(workers int) {
+	var mu sync.Mutex
+	var wg sync.WaitGroup
+	bad := map[int]string{}
+	n := len(g.pool)
+	for w := 0; w < workers; w++ {
+		wg.Add(1)
+		go func(w int) {
+			defer wg.Done()
+			stride := []int{1, 7, 11, 13, 17, 19, 23, 29}[w%8]
+			for i := 0; i < n; i++ {
+				k := (w*131 + i*stride) % n
+				if got := run(g.pool[k].p).summary(); got != g.pool[k].summary {
+					mu.Lock()
+					if _, dup := bad[k]; !dup {
+						bad[k] = got
+					}
+					mu.Unlock()
+				}
+			}
+		}(w)
+	}
+	wg.Wait()
+	g.st.Distribution["concurrent:evaluations"] += n * workers
+	reported := 0
+	for k, got := range bad {
+		if reported++; reported > 20 {
+			break
+		}
+		g.st.ImplFailures = append(g.st.ImplFailures, map[string]interface{}{
+			"what": "validating the parameter concurrently with others gives a different result than alone", "param": g.pool[k].p.json(),
+			"sequential": g.pool[k].summary, "concurrent": got})
+	}
 }
 
 var knownBases = map[string]bool{"int": true, "uint": true, "address": true, "bool": true, "fixed": true, "ufixed": true, "bytes": true, "function": true, "string": true, "tuple": true}
@@ -326,7 +452,11 @@ func (g *gen) add(kind string, p *param) {
 		if knownBases[b] {
 			g.st.Distinct++
 		}
+		if r.cls != 2 && (len(g.pool) < 4000 || len(g.seen)%8 == 0) && len(g.pool) < 12000 {
+			g.pool = append(g.pool, pooled{p: p, summary: r.summary()})
+		}
 	}
+	g.retain(p, r)
 	if len(g.st.Samples) < 40 && g.w.Count()%97 == 0 {
 		g.st.Samples = append(g.st.Samples, map[string]interface{}{"kind": kind, "param": p.json(), "impl": implDesc})
 	}
@@ -381,8 +511,79 @@ func (g *gen) addABI(kind string, entries [][2][]*param) {
 			cls = 1
 		}
 	}()
+	g.entryOracles(entries, dj)
 	g.st.Hit(fmt.Sprintf("%s:class=%d", kind, cls))
 	g.w.Add(fmt.Sprintf("CAbi [%s] %d", strings.Join(parts, "; "), cls), desc{Kind: kind, ABI: dj, Impl: fmt.Sprintf("class=%d", cls)})
+}
+
+// entryOracles: the entry-level views of the same parameters (Entry.Validate, Entry.Signature,
+// ParameterArray.TypeComponentTree, for every kind of entry) agree with the per-parameter results.
+func (g *gen) entryOracles(entries [][2][]*param, dj [][2][]pj) {
+	kinds := []abi.EntryType{abi.Function, abi.Event, abi.Error, abi.Constructor, abi.Fallback, abi.Receive}
+	for ei, e := range entries {
+		en := &abi.Entry{Type: kinds[(ei+len(e[0]))%len(kinds)], Name: "f"}
+		allOK, insOK := true, true
+		var sigs, trees []string
+		for _, p := range e[0] {
+			en.Inputs = append(en.Inputs, p.abi())
+			r := run(p)
+			if r.cls != 0 {
+				allOK, insOK = false, false
+			} else {
+				sigs = append(sigs, r.sig)
+				trees = append(trees, r.tree.describe())
+			}
+		}
+		for _, p := range e[1] {
+			en.Outputs = append(en.Outputs, p.abi())
+			if run(p).cls != 0 {
+				allOK = false
+			}
+		}
+		problem := ""
+		func() {
+			defer func() {
+				if x := recover(); x != nil {
+					problem = fmt.Sprint("panic: ", x)
+				}
+			}()
+			// the tuple view of the inputs first (fresh parameters), then Validate, then the signature
+			pa := abi.ParameterArray{}
+			for _, p := range e[0] {
+				pa = append(pa, p.abi())
+			}
+			tc, err := pa.TypeComponentTree()
+			switch {
+			case (err == nil) != insOK:
+				problem = fmt.Sprintf("ParameterArray.TypeComponentTree ok=%v, parameters one by one ok=%v", err == nil, insOK)
+			case err == nil:
+				want := "tuple(" + strings.Join(trees, ",") + ")"
+				if got := observe(tc).describe(); got != want {
+					problem = "ParameterArray.TypeComponentTree = " + got + ", parameters one by one = " + want
+				} else if tc.String() != "("+strings.Join(sigs, ",")+")" {
+					problem = "ParameterArray tree renders as " + tc.String()
+				}
+			}
+			if problem != "" {
+				return
+			}
+			if err := en.Validate(); (err == nil) != allOK {
+				problem = fmt.Sprintf("Entry.Validate ok=%v, parameters one by one ok=%v", err == nil, allOK)
+				return
+			}
+			sig, err := en.Signature()
+			if (err == nil) != insOK {
+				problem = fmt.Sprintf("Entry.Signature ok=%v, inputs one by one ok=%v", err == nil, insOK)
+			} else if err == nil && sig != "f("+strings.Join(sigs, ",")+")" {
+				problem = "Entry.Signature = " + sig + ", inputs one by one give f(" + strings.Join(sigs, ",") + ")"
+			}
+		}()
+		g.st.Hit("entry-oracle:" + string(en.Type))
+		if problem != "" {
+			g.st.ImplFailures = append(g.st.ImplFailures, map[string]interface{}{
+				"what": "entry-level view disagrees with the parameters validated one by one: " + problem, "entry": dj[ei]})
+		}
+	}
 }
 
 // ---------- generators ----------
@@ -703,6 +904,59 @@ func (g *gen) boundaryCorpus(thorough bool) {
 			g.add("family:tuple-deep", p)
 		}
 	}
+	// wrap-around of a width / precision / dimension parsed wider than it is stored: 2^16, 2^32, 2^64 + a valid value
+	for _, w := range []string{"65544", "65568", "65537", "131073", "4294967297", "4294967328", "18446744073709551624", "18446744073709551617", "18446744073709551648",
+		"340282366920938463463374607431768211464", "115792089237316195423570985008687907853269984665640564039457584007913129640192"} {
+		for _, f := range []string{"uint%s", "int%s", "bytes%s", "fixed%sx18", "ufixed128x%s", "uint8[%s]", "tuple[%s]", "bytes%s[1]", "string[2][%s]"} {
+			g.add("family:wraparound", &param{T: fmt.Sprintf(f, w), C: u8})
+		}
+	}
+	// long inputs: many dimensions, long numerals, many components (nothing in the grammar bounds them)
+	for _, b := range []string{"uint256", "ufixed256x80", "bytes", "tuple", "string", "bool", "uint7", "tuple7"} {
+		for _, n := range []int{5, 8, 9, 15, 16, 17, 31, 32, 33, 64, 65, 100, 257} {
+			var sb, sb2, sb3 strings.Builder
+			for i := 0; i < n; i++ {
+				sb.WriteString([]string{"[]", "[4294967295]", "[0]", "[10]"}[(i+n)%4])
+				sb2.WriteString("[]")
+				sb3.WriteString("[" + strconv.Itoa(i+1) + "]")
+			}
+			g.add("family:dims-long", &param{T: b + sb.String(), C: u8})
+			g.add("family:dims-long", &param{T: b + sb2.String(), C: u8})
+			g.add("family:dims-long", &param{T: b + sb3.String(), C: u8})
+			// the same with one bad dimension at the far end / in the middle
+			g.add("family:dims-long-bad", &param{T: b + sb2.String() + "[01]", C: u8})
+			g.add("family:dims-long-bad", &param{T: b + sb2.String() + "[", C: u8})
+			g.add("family:dims-long-bad", &param{T: b + sb3.String()[:sb3.Len()/2] + "]" + sb3.String()[sb3.Len()/2:], C: u8})
+			g.add("family:dims-long-bad", &param{T: b + sb.String() + "[4294967296]", C: u8})
+		}
+	}
+	for _, z := range []int{1, 2, 15, 16, 17, 19, 20, 21, 31, 32, 63, 64, 65, 200} {
+		zs := strings.Repeat("0", z)
+		ns := strings.Repeat("9", z)
+		os_ := "1" + zs
+		for _, f := range []string{"uint%s8", "uint%s", "bytes%s1", "fixed%s8x18", "fixed8x%s1", "uint8[%s1]", "uint8[%s]", "tuple[%s2]"} {
+			g.add("family:long-numeral", &param{T: fmt.Sprintf(f, zs), C: u8})
+		}
+		for _, f := range []string{"uint%s", "int%s", "bytes%s", "ufixed%sx1", "ufixed8x%s", "bool[%s]", "tuple[][%s]"} {
+			g.add("family:long-numeral", &param{T: fmt.Sprintf(f, ns), C: u8})
+			g.add("family:long-numeral", &param{T: fmt.Sprintf(f, os_), C: u8})
+		}
+	}
+	for _, n := range []int{4, 15, 16, 17, 32, 33, 64, 255, 256, 257, 1000} {
+		p := &param{T: "tuple"}
+		q := &param{T: "tuple[2][]"}
+		for i := 0; i < n; i++ {
+			p.C = append(p.C, leaf([]string{"uint8", "bytes", "string[]", "fixed", "address[3]"}[i%5]))
+			q.C = append(q.C, leaf([]string{"uint8", "bytes", "string[]", "fixed", "address[3]"}[i%5]))
+		}
+		g.add("family:tuple-wide", p)
+		g.add("family:tuple-wide", q)
+		// invalid member last / first
+		p2 := &param{T: "tuple", C: append(append([]*param{}, p.C...), leaf("uint008"))}
+		g.add("family:tuple-wide-bad", p2)
+		p3 := &param{T: "tuple[1]", C: append([]*param{leaf("bytes33")}, p.C...)}
+		g.add("family:tuple-wide-bad", p3)
+	}
 	_ = thorough
 }
 
@@ -843,6 +1097,12 @@ func main() {
 		}
 		g.addABI("abi", es)
 	}
+
+	for _, rt := range g.retained {
+		g.recheck(rt)
+	}
+	g.retained = nil
+	g.concurrentPass(8)
 
 	if err := g.w.Flush(); err != nil {
 		panic(err)
